@@ -20,6 +20,12 @@
 #define VF_ENGINE_C "cr32.c"
 #endif
 #include VF_ENGINE_C
+#if defined VF_SIMD_MODELS && !defined VF_NATIVE
+/* the two SSE shuffles the SIMD kernels use have no body in cbmc: exact lane permutations (Intel SDM MOVHLPS / SHUFPS) */
+typedef float vf_v4sf __attribute__((vector_size(16)));
+vf_v4sf __builtin_ia32_movhlps(vf_v4sf a, vf_v4sf b) { vf_v4sf r; r[0] = b[2]; r[1] = b[3]; r[2] = a[2]; r[3] = a[3]; return r; }
+vf_v4sf __builtin_ia32_shufps(vf_v4sf a, vf_v4sf b, int imm) { vf_v4sf r; r[0] = a[imm & 3]; r[1] = a[(imm >> 2) & 3]; r[2] = b[(imm >> 4) & 3]; r[3] = b[(imm >> 6) & 3]; return r; }
+#endif
 
 #ifndef VF_KERN
 #define VF_KERN 0
